@@ -4,6 +4,7 @@ from sx import spec as SP, obs as O, term as T
 from . import common as C
 
 ID = 'C07'
+AGEABLE = True        # a quarter of the configurations build their operands as objects with a past (props/common.py)
 ENCODED = ['Fxp.__add__', 'Fxp.__sub__', 'Fxp.__mul__', 'Fxp.__radd__', 'Fxp.__rsub__', 'functions.add', 'functions.sub', 'functions.mul',
            'functions._get_sizing', 'functions._function_over_two_vars', 'Fxp.__init__', 'Fxp.set_val', 'Fxp.__array_ufunc__']
 ASSUMPTIONS = [
